@@ -718,6 +718,22 @@ func areaOtl(c *Ctx) {
 
 	// ---- lookup lists
 	otlLLSweep(c)
+	// the reader's budget: lookups + subtables <= 6000
+	for _, line := range []string{
+		"1/0/0/" + strings.TrimSuffix(strings.Repeat("n:2:1|", 5999), "|"),
+		"1/0/0/" + strings.TrimSuffix(strings.Repeat("n:2:1|", 6000), "|"),
+		strings.TrimSuffix(strings.Repeat("2/0/0/n:2:1;", 3000), ";"),
+		strings.TrimSuffix(strings.Repeat("2/0/0/n:2:1;", 3001), ";"),
+		strings.TrimSuffix(strings.Repeat("2/16/3/;", 6000), ";"),
+		strings.TrimSuffix(strings.Repeat("2/16/3/;", 6001), ";"),
+	} {
+		out := c.Case(Verdict, "otl.ll.encode", "ll="+line, true)
+		if strings.HasPrefix(out, "ok:") {
+			ll, _ := otlParseLL(line)
+			o := c.Case(Verdict, "otl.ll.read", "ext=9 data="+hx(gtab.VerifEncodeLookupList(ll)), true)
+			c.Stat("ll.budget", outcomeClass(o))
+		}
+	}
 	nLargeRead := 0
 	for i := 0; i < nLL/4; i++ {
 		ext := Pick(r, []int{7, 9})
@@ -1897,6 +1913,49 @@ func init() {
 	ops["otl.gdef.encode"] = func(f Fields) string {
 		return canonPanic(guard(func() string { return "ok:" + otlShowBytes(otlGdefFromFields(f).Encode()) }))
 	}
+	// GDEF through the real code: Encode (a panic is a loud refusal) then Read gives the same class
+	// functions and the same mark glyph sets
+	ops["otl.gdef.rt"] = func(f Fields) string {
+		return canonPanic(guard(func() string {
+			t := otlGdefFromFields(f)
+			var b []byte
+			if guard(func() string { b = t.Encode(); return "" }) != "" {
+				return "ok"
+			}
+			out, err := gdef.Read(bytes.NewReader(b))
+			if err != nil {
+				return "fail:" + errKind(err)
+			}
+			same := func(a, c classdef.Table) bool {
+				for g, v := range a {
+					if c[g] != v {
+						return false
+					}
+				}
+				for g, v := range c {
+					if a[g] != v {
+						return false
+					}
+				}
+				return true
+			}
+			if !same(t.GlyphClass, out.GlyphClass) {
+				return "fail:GlyphClass"
+			}
+			if !same(t.MarkAttachClass, out.MarkAttachClass) {
+				return "fail:MarkAttachClass"
+			}
+			if len(t.MarkGlyphSets) != len(out.MarkGlyphSets) {
+				return "fail:MarkGlyphSets"
+			}
+			for i, set := range t.MarkGlyphSets {
+				if otlGids(set.Glyphs()) != otlGids(out.MarkGlyphSets[i].Glyphs()) {
+					return "fail:MarkGlyphSets"
+				}
+			}
+			return "ok"
+		}))
+	}
 	ops["otl.gdef.read"] = func(f Fields) string {
 		return canonPanic(guard(func() string {
 			t, err := gdef.Read(bytes.NewReader(f.Hex("data")))
@@ -1982,12 +2041,21 @@ func otlGenGdef(c *Ctx, i int) {
 		}
 		gc, mac, sets = otlRunsString(rs, true), "5:1", "-"
 		what = []string{"boundary-ok", "boundary-refused"}[i]
+	case 2, 3, 4, 5: // the same with mark glyph sets (header 14 bytes), and far above the limit
+		n := []int{32757, 32758, 40000, 40000}[i-2] // 14 + 6 + 2n = 65534 / 65536
+		var rs []otlRun
+		for g := 0; g < n; g++ {
+			rs = append(rs, otlRun{g, g, 1 + g%2})
+		}
+		gc, mac, sets = otlRunsString(rs, true), "5:1,6:2,7:1", []string{"3-4", "3-4", "-", "3-4;e"}[i-2]
+		what = []string{"boundary-ok", "boundary-refused", "boundary-refused", "boundary-refused"}[i-2]
 	}
 	c.Stat("gdef.kind", what)
 	c.Stat("gdef.parts", fmt.Sprintf("gc:%v mac:%v sets:%v", gc != "-", mac != "-", sets != "-"))
 	args := fmt.Sprintf("gc=%s mac=%s sets=%s", gc, mac, sets)
 	out := c.Case(Verdict, "otl.gdef.encode", args, true)
 	c.Stat("gdef.encode-outcome", outcomeClass(out))
+	c.Case(Direct, "otl.gdef.rt", args, true)
 	if !strings.HasPrefix(out, "ok:") {
 		return
 	}
@@ -2827,6 +2895,28 @@ func otlGenCtxShapes(c *Ctx) {
 		o = c.Case(Verdict, "otl.gsub.read", "type=6 data="+hx(c1b), true)
 		c.Stat("zero-count", fmt.Sprintf("chained1-count1,trailing=%d:%s", trailing, outcomeClass(o)))
 	}
+	// ChainedSeqContext2: the last rule set starts below 64 KiB and ends at 65534 / 65536 / far beyond
+	// (set = 20 + 2n bytes after 50 bytes of header, coverage and class tables: the readers and the
+	// encoder check where a set STARTS); and a second set that starts at 65534 / 65536
+	for _, n := range []int{32732, 32733, 33000} {
+		emit("C2", fmt.Sprintf("st=C2 cov=5-6 cb=7:1 ci=5-6:1 cl=8:1 sets=-|1/%s/1>0:0", strings.TrimSuffix(strings.Repeat("1.", n), ".")))
+	}
+	for k := 0; k < 2; k++ { // the second set starts at 65534 (written) / 65536 (refused)
+		emit("C2", fmt.Sprintf("st=C2 cov=5-7 cb=7:1 ci=5:1,6-7:2 cl=8:1 sets=-|1/%s/1>0:0|//>", strings.TrimSuffix(strings.Repeat("1.", 32729+k), ".")))
+		emit("C1", fmt.Sprintf("st=C1 cov=5-6 sets=1/%s/1>0:0|//>", strings.TrimSuffix(strings.Repeat("1.", 32748+k), ".")))
+	}
+	// ChainedSeqContext2: one set of n rules of 16 bytes, last rule offset 65524 / 65542 (as for format 1)
+	for _, n := range []int{3641, 3642} {
+		q := make([]string, n)
+		for k := range q {
+			q[k] = "1/1/>0:1"
+		}
+		emit("C2", fmt.Sprintf("st=C2 cov=10 cb=7:1 ci=10:1 cl=empty sets=-|%s", strings.Join(q, ",")))
+	}
+	// SeqContext2: classDefOffset = 8 + 2*sets + sets' bytes + coverage at 65534 / 65536 / 65538
+	for _, n := range []int{32751, 32752, 32753} {
+		emit("c2", fmt.Sprintf("st=c2 cov=5-6 cd=5-6:1 sets=-|/%s/>0:0", strings.TrimSuffix(strings.Repeat("1.", n), ".")))
+	}
 	// format 3 without (input) coverage: written by the encoders, rejected by the readers (known finding
 	// C08-context3-no-input, D otl.ctx.rt)
 	emit("c3", "st=c3 covs= acts=0:1")
@@ -2854,18 +2944,18 @@ func otlGenCtxShapes(c *Ctx) {
 		}
 	}
 	for _, n1 := range []int{255, 256} {
-		row := strings.TrimSuffix(strings.Repeat("-/-,", 256), ",")
+		row := strings.TrimSuffix(strings.Repeat("-/-,", 256+(256-n1)), ",") // 255 x 257 = 65535, 256 x 256 = 65536
 		rows := make([]string, n1)
 		for k := range rows {
 			rows[k] = row
 		}
 		args := fmt.Sprintf("st=22 cov=0-9 c1=5:1 c2=7:1 rows=%s", strings.Join(rows, ";"))
 		out := c.Case(Verdict, "otl.gpos.encode", args, true)
-		c.Stat("reader-limit", fmt.Sprintf("gpos22,%dx256:%s", n1, outcomeClass(out)))
+		c.Stat("reader-limit", fmt.Sprintf("gpos22,%dx%d:%s", n1, 512-n1, outcomeClass(out)))
 		if strings.HasPrefix(out, "ok:") {
 			b := gtab.VerifSubtableEncode(otlGposFromFields(parseFields(args)))
 			o := c.Case(Verdict, "otl.gpos.read", "type=2 data="+hx(b), true)
-			c.Stat("reader-limit", fmt.Sprintf("gpos22,%dx256:read:%s", n1, outcomeClass(o)))
+			c.Stat("reader-limit", fmt.Sprintf("gpos22,%dx%d:read:%s", n1, 512-n1, outcomeClass(o)))
 		}
 	}
 	// no rule sets at all
